@@ -198,6 +198,22 @@ pub fn run(ctx: &Ctx, rep: &mut Report, judge: Judge) {
         replay(ctx, rep, judge, path);
         return;
     }
+    if ctx.extra.iter().any(|a| a == "--tiny") {
+        // Miri tier: a handful of very small round trips per process (the interpreter is ~10^4 x slower)
+        let mut rng = ctx.rng(0x7117);
+        for k in 0..2u64 {
+            let mut cfg = EncCfg::random(&mut rng);
+            cfg.block_size = *rng.pick(&[16u16, 20, 32]);
+            cfg.channels = rng.usize(1, 3) as u8;
+            cfg.bps = *rng.pick(&[8u32, 12, 16, 24, 32]);
+            cfg.max_lpc = *rng.pick(&[None, Some(1), Some(3), Some(6)]);
+            cfg.max_part = rng.below(4) as u32;
+            let frames = cfg.block_size as usize + rng.usize(1, 12);
+            let case = Case { cfg, front: FRONTS[((ctx.shard + k) % 4) as usize], recipe: PcmRecipe { signal: *rng.pick(&flacref::pcm::ALL_SIGNALS), seed: rng.next(), frames } };
+            run_case(ctx, rep, judge, &case);
+        }
+        return;
+    }
     let mut idx: u64 = 0;
     // (a) exhaustive short lengths
     let sigs = [Signal::NoiseLow, Signal::Sine, Signal::SmoothRandomWalk, Signal::NoiseFull];
